@@ -106,7 +106,7 @@ func runHonest(t *testing.T, rt *rapid.T, c honestCase) (nontrivial bool, labels
 		f.Fatalf("%s: responder completed against its own expectation", ctx)
 	}
 	baseline := equal && a.mustAccept(c.proto, ib.ID) && b.mustAccept(c.proto, ia.ID)
-	if baseline {
+	if baseline && !noConverse {
 		if !oa.hsOK || !ob.hsOK || !oa.echoOK || !ob.echoOK {
 			f.Fatalf("%s: honest baseline (matching settings, equal prologues) did not complete with a working echo: initiator: %s; responder: %s", ctx, oa, ob)
 		}
@@ -152,7 +152,7 @@ func TestHonestMatrix(t *testing.T) {
 	warm()
 	name := t.Name()
 	var cases []honestCase
-	full := hx.Thorough()
+	full := true // ~3000 cases, a few seconds: affordable in both tiers
 	for _, ti := range keys.Types {
 		for _, tr := range keys.Types {
 			for i, ei := range noiseSettings {
@@ -193,7 +193,7 @@ func TestHonestMatrix(t *testing.T) {
 func TestHonestRandom(t *testing.T) {
 	warm()
 	name := t.Name()
-	hx.Check(t, 400, 20000, 0, func(rt *rapid.T) {
+	hx.Check(t, 800, 20000, 0, func(rt *rapid.T) {
 		c := honestCase{
 			proto:     rapid.SampledFrom([]string{pNoise, pNoise, pTLS}).Draw(rt, "proto"),
 			ti:        rapid.SampledFrom(keys.Types).Draw(rt, "ti"),
